@@ -139,6 +139,8 @@ func loadAmmoUnbounded(P *Prog, c *Ctx) bool {
 }
 
 func runC14(c *Ctx) {
+	c.Rule("O14.7", "an entry means the same on every pass and in both modes: it is decoded into storage made for it, so its tag - what chosencases filters by - does not depend on the entry read before it (the rule of O7.6, shared); streaming re-decodes the file on every pass while preload decodes it once")
+	c.Borrow("C07", runC07, map[string]string{"O7.6": "O14.7"})
 	c.Rule("O14.1", "both paths end the same way: neither the streaming arm nor the preload arm of the http provider's Run may return the limit/pass sentinels")
 	c.Rule("O14.2", "the chosencases filter precedes the limit count: a function that skips entries failing IsChosenCase and enforces a limit must count only entries that passed the filter; a decoder that already counts entries must run without limit when a filter is configured")
 	c.Rule("O14.3", "both paths apply the same filter: IsChosenCase(ammo.Tag(), Config.ChosenCases)")
